@@ -142,11 +142,19 @@ def run(ctx):
     path = os.path.join(ctx.tmpdir, 'c04.fcs')
     shapes = [(4, 3), (1, 1), (3, 1), (2, 4)] if ctx.tier == 'quick' else \
         [(n, d) for n in range(1, 6) for d in range(1, 5)]
-    kinds = ['int', 'float']
+    kinds = ['int', 'float', 'int-dupnames']       # 'int-dupnames': a file recording the same channel name for two parameters
     for cid, rng in ctx.cases([('grid', n, d, k) for (n, d) in shapes for k in kinds]):
         mon.cid = cid
         _, N, D, kind = cid
+        dup = kind == 'int-dupnames'
+        if dup:
+            if D < 2:
+                continue
+            kind = 'int'
         spec = zoo.int_spec(rng, n=N, d=D, limits=False) if kind == 'int' else zoo.float_spec(rng, n=N, d=D)
+        if dup:
+            spec['names'] = list(spec['names'])
+            spec['names'][-1] = spec['names'][0]      # columns 0 and D-1 share a name but nothing else
         # distinct metadata in EVERY attribute of every column
         if kind == 'int':
             spec['ranges'] = [256 * (j + 1) for j in range(D)]
@@ -163,6 +171,10 @@ def run(ctx):
         recs = zoo.per_channel(s)
         names = list(s.channels)
         rks, cks = row_keys(N), col_keys(D, names)
+        if dup:
+            # a repeated name cannot address its second column: positional column keys only (each column keeps ITS OWN metadata)
+            has_name = lambda k: isinstance(k, str) or (isinstance(k, (list, tuple)) and any(isinstance(x, str) for x in k))
+            cks = [k for k in cks if not has_name(k)]
         # ---- exhaustive grammar -------------------------------------------------
         for rk in rks:
             for ck in cks:
